@@ -193,7 +193,7 @@ func TestVerifC43(t *testing.T) {
 
 func c43StreamPack(t *testing.T, rec *kit.Rec) {
 	env := rec.Env
-	n := env.Pick(320, 5000)
+	n := env.Pick(320, 960)
 	packs := map[string]*c43Pack{}
 	getPack := func(kind string) *c43Pack {
 		if p := packs[kind]; p != nil {
@@ -573,7 +573,7 @@ func (r *byteRd) Read(p []byte) (int, error) {
 
 func c43Repository(t *testing.T, rec *kit.Rec) {
 	env := rec.Env
-	n := env.Pick(96, 2000)
+	n := env.Pick(96, 320)
 	type fixture struct {
 		be     *kit.VBackend
 		repo   *Repository
